@@ -134,7 +134,15 @@ def make_case(rng, b, fam, orient):
         return [int(round(q)) if abs(q - round(q)) < 1e-6 * max(1.0, abs(q)) else -999999 for q in v]
     a1 = [i + 1 for i, s in enumerate(species_all) if s == s1]
     a2 = [i + 1 for i, s in enumerate(species_all) if s == s2]
-    if len(r12.x) == nb:
+    # "every pair within the cut-off is counted in one bin": the bins must reach the cut-off
+    short = [(name, len(r_.x)) for name, r_ in (('between', r12), ('between-swapped', r21)) if len(r_.x) * res < max_dist - 1e-9]
+    if short:
+        recs.append({'b': b, 'act': 'Broken', 'clause': 'bins-do-not-reach-the-cut-off', 'detail': short,
+                     'meta': {'family': fam, 'orientation': orient, 'res': res, 'max_dist': max_dist, 'bins_expected': nb}})
+    elif len(r12.x) != nb or len(r21.x) != nb:
+        recs.append({'b': b, 'act': 'Broken', 'clause': 'number-of-bins', 'detail': [len(r12.x), len(r21.x), nb],
+                     'meta': {'family': fam, 'orientation': orient, 'res': res, 'max_dist': max_dist, 'bins_expected': nb}})
+    else:
         recs.append({'b': b, 'act': 'Between', 'G': G, 'N': N, 'R': R, 'pos': pos_all.tolist(), 'a1': a1, 'a2': a2, 'thr': thr,
                      'hist12': raw(r12, len(a2)), 'hist21': raw(r21, len(a1)),
                      'meta': {'family': fam, 'orientation': orient, 'res': res, 'max_dist': max_dist, 'species': [s1, s2]}})
@@ -154,7 +162,10 @@ def make_case(rng, b, fam, orient):
     lab_code = {n_: i for i, n_ in enumerate(names)}
     rdfs, ok = parse_state_rdfs(rd, lab_code, code, nb)
     F = [i + 1 for i, s in enumerate(species_all) if s == 'Li']
-    if ok:
+    if not ok:
+        recs.append({'b': b, 'act': 'Broken', 'clause': 'per-state-number-of-bins', 'detail': sorted({len(r_.y) for coll in rd.values() for r_ in coll}) + [nb + 1],
+                     'meta': {'family': fam, 'orientation': orient, 'res': res, 'max_dist': max_dist}})
+    else:
         recs.append({'b': b, 'act': 'States', 'G': G, 'N': N, 'R': R, 'pos': pos_all.tolist(), 'F': F,
                      'hist': hist_of(tr.states, tr.inner_states), 'labels': [lab_code[x] for x in labels],
                      'symbols': [[code[s], [i + 1 for i, q in enumerate(species_all) if q == s]] for s in syms], 'thr': thr, 'rdfs': rdfs,
@@ -191,8 +202,19 @@ def run(rep):
             rep.extra['rejected_by_margin'] = rep.extra.get('rejected_by_margin', 0) + 1
             continue
         recs += c
+    for r_ in [r_ for r_ in recs if r_['act'] == 'Broken']:
+        if r_['clause'] == 'bins-do-not-reach-the-cut-off':
+            rep.evaluations += 1
+            rep.violation({'kind': 'leg-B', 'clause': r_['clause'], 'detail': r_['detail'], 'meta': r_['meta']})
+        else:
+            # another number of bins than numpy.arange(0, cut-off + resolution, resolution) gives, but reaching the cut-off: a legal
+            # binning this harness has no thresholds for -- not judged, and counted so that it cannot go unnoticed
+            rep.extra['not_judged_other_binning'] = rep.extra.get('not_judged_other_binning', 0) + 1
+    recs = [r_ for r_ in recs if r_['act'] != 'Broken']
+    if len(recs) < 10 and not rep.violations:
+        raise core.Machinery(f'C11 produced only {len(recs)} records to judge')
     metas = [r_.pop('meta') for r_ in recs]
-    verdicts = core.validate_traces('TraceRdf', recs, timeout=2400)
+    verdicts = core.validate_traces('TraceRdf', recs, timeout=2400) if recs else []
     rep.add_trace_stats()
     for rec, meta, (v, act) in zip(recs, metas, verdicts):
         rep.evaluations += 1
